@@ -2,7 +2,7 @@
    Depends on Model only.  Implementation floats arrive as the exact rationals of their
    binary64 values; comparisons are made in Q. *)
 From Coq Require Import String QArith Qabs.
-From CKT Require Import Common.Base Extracted.Facts Model.Kappa.
+From CKT Require Import Common.Base Extracted.Facts Model.Kappa Model.KappaGates.
 Close Scope Q_scope.
 Local Open Scope string_scope.
 
@@ -119,4 +119,18 @@ Definition chk_basis (c : list nat * list Q * list (list Q) * list (bool * optio
   | Ok p, (false, o) :: os' => obs_exact p o && chk_steps p ops os'
   | Refused, [(true, None)] => true
   | _, _ => false
+  end.
+
+(* the hand-written gate matrices of Model/KappaGates.v against Gate.to_matrix():
+   (kind 0 rzx / 1 xx_plus_yy / 2 xx_minus_yy, cos(theta/2), sin(theta/2), cos beta, sin beta, rows of (re, im)) *)
+Definition close_rows (l1 l2 : list (list (Q * Q))) : bool :=
+  list_beq (fun r1 r2 => close_pairs tol12 r1 r2) l1 l2.
+
+Definition chk_gate_mat (c : nat * Q * Q * Q * Q * list (list (Q * Q))) : bool :=
+  let '(kind, co, si, cb, sb, rows) := c in
+  match kind with
+  | 0 => close_rows (rzx_tableQ co si) rows
+  | 1 => close_rows (xxpyy_tableQ co si cb sb) rows
+  | 2 => close_rows (xxmyy_tableQ co si cb sb) rows
+  | _ => false
   end.
